@@ -479,7 +479,47 @@ def unit_bounded_switch(U):
                      "3 feature sets x both settings of the switch; 3 update_attributes value shapes (str, list, tuple)", cases, fails)
 
 
-UNITS = [("bounded.switch", unit_bounded_switch), ("bounded.after_delete", unit_bounded_after_delete), ("body", unit_body), ("introns", unit_introns), ("splice", unit_splice), ("bounded.numeric", unit_bounded_numeric)]
+def unit_bounded_interleaved(U):
+    """Bounded: create_introns / create_splice_sites consumed LAZILY while other queries run on the same FeatureDB (per yielded
+    intron a children() query with the very arguments the generator uses; two generators walked in lock-step) yield what
+    they yield when consumed at once"""
+    import gffutils
+    fails, cases = [], 0
+    mk = lambda i, ft, a, b, par=None: F.Feature(seqid="c", source="s", featuretype=ft, start=a, end=b, strand="+", attributes=dict({"ID": [i]}, **({"Parent": par} if par else {})))
+    feats = [mk("g", "gene", 1, 1000)]
+    for t in range(2):
+        feats.append(mk("t%d" % t, "mRNA", 1, 1000, ["g"]))
+        for k in range(5):
+            feats.append(mk("t%d.e%d" % (t, k), "exon", 100 * k + 1 + t, 100 * k + 50 + t, ["t%d" % t]))
+    db = gffutils.create_db(feats, ":memory:")
+    key = lambda f: (f.seqid, f.start, f.end, f.featuretype, f.strand)
+    whole_i = sorted(key(f) for f in db.create_introns())
+    whole_s = sorted(key(f) for f in db.create_splice_sites())
+    cases += 1
+    lazy = []
+    for intron in db.create_introns():
+        lazy.append(key(intron))
+        for tr in ("t0", "t1"):
+            list(db.children(tr, level=1, featuretype="exon", order_by="start"))
+            list(db.children(tr, featuretype="exon", order_by="start"))
+    if sorted(lazy) != whole_i or len(whole_i) != 8:
+        fails.append({"case": "per yielded intron: children(transcript, featuretype='exon', order_by='start') on the same db", "expected": whole_i, "observed": sorted(lazy)})
+    cases += 1
+    zi, zs = [], []
+    gi, gs = db.create_introns(), db.create_splice_sites()
+    while True:
+        a, b = next(gi, None), next(gs, None)
+        if a is None and b is None:
+            break
+        if a is not None:
+            zi.append(key(a))
+        if b is not None:
+            zs.append(key(b))
+    if sorted(zi) != whole_i or sorted(zs) != whole_s:
+        fails.append({"case": "create_introns() and create_splice_sites() advanced in lock-step", "expected": [len(whole_i), len(whole_s)], "observed": [len(zi), len(zs)]})
+    U.bounded_result("C15.bounded.interleaved", "introns / splice sites consumed lazily among other queries on the same FeatureDB == consumed at once", "2 transcripts x 5 exons; nested children() queries; two generators in lock-step", cases, fails)
+
+UNITS = [("bounded.interleaved", unit_bounded_interleaved), ("bounded.switch", unit_bounded_switch), ("bounded.after_delete", unit_bounded_after_delete), ("body", unit_body), ("introns", unit_introns), ("splice", unit_splice), ("bounded.numeric", unit_bounded_numeric)]
 try:
     from standins import C15 as _S
     UNITS = UNITS + list(_S.UNITS)
